@@ -17,15 +17,18 @@ def contexts(thorough, seed):
     allc = []
     for role, fbd, comp, pre in itertools.product(["server", "client"], [True, False], [False, True], ["open", "closing", "inside"]):
         allc.append(dict(role=role, failByDrop=fbd, compress=comp, pre=pre, maxFrame=0, maxMsg=0))
+    # compression negotiated, but the fragmented message the cell falls into is not compressed
+    plain = [dict(role=role, failByDrop=fbd, compress=True, pre="insideplain", maxFrame=0, maxMsg=0) for role in ("server", "client") for fbd in (True, False)]
     if thorough:
-        return allc
+        return allc + plain
     # quick: 3 of the 24 contexts covering every value of every factor, rotated by seed
     picks = [[("server", True, False, "open"), ("client", False, False, "inside"), ("server", False, True, "closing")],
              [("client", True, True, "open"), ("server", False, False, "inside"), ("client", False, False, "closing")],
              [("server", True, True, "inside"), ("client", False, True, "open"), ("client", True, False, "closing")],
              [("client", True, True, "inside"), ("server", False, False, "open"), ("server", True, True, "closing")]]
     sel = picks[seed % 4]
-    return [c for c in allc if (c["role"], c["failByDrop"], c["compress"], c["pre"]) in sel]
+    # ... plus, of that fourth kind of context, the cells with RSV1 set
+    return [c for c in allc if (c["role"], c["failByDrop"], c["compress"], c["pre"]) in sel] + [dict(plain[seed % 4], b0_filter="rsv1")]
 
 
 def validate(res, traces, meta, label, finding_fn):
